@@ -134,7 +134,7 @@ def histories(draw, max_steps=8):
 
 class History(Facet):
     name = "history"
-    examples = {"quick": 8000, "thorough": 100000}
+    examples = {"quick": 8000, "thorough": 300000}
     shards = {"quick": 16, "thorough": 16}
 
     def strategy(self, tier):
@@ -241,7 +241,7 @@ def system_cases(draw):
 
 class System(Facet):
     name = "system"
-    examples = {"quick": 800, "thorough": 12000}
+    examples = {"quick": 800, "thorough": 36000}
     shards = {"quick": 16, "thorough": 16}
 
     def strategy(self, tier):
